@@ -146,7 +146,12 @@ KF_Import(e, op) ==
            /\ S' = [Eff(base, op) EXCEPT !.files[op.f].tamper = fld, !.ks[op.w][f.seed].int = @ + 1]
            /\ Flag("C01-tamper-accepted:InternalChildNum")
 
-Step(e) == \E op \in OpsOf(e) :
+AllActs == {"Open", "Close", "Lock", "NewKs", "NextAddr", "GenKey", "Remark", "ChangePriv", "ChangePub", "Delete", "Export",
+            "Import", "Tamper", "Unlock", "Sign", "Ordinal"}
+\* a call during which the process died or panicked matches nothing
+Alive(e) == e.a \in AllActs /\ e.res \in {"ok", "err", "crashed"} /\ "run" \in DOMAIN e
+
+Step(e) == Alive(e) /\ \E op \in OpsOf(e) :
   /\ Enabled(S, op)
   /\ (Conform(e, op) \/ KF_Import(e, op))
   /\ ProjOK(e, S')
